@@ -59,6 +59,8 @@ constexpr uintptr_t VSBX_STRIDE = VSBX_STRIDE_BYTES;
 
 // which address slots are in use (process-wide; the harness is single threaded unless stated)
 inline bool g_slot_used[64];
+inline thread_local uintptr_t g_last_same_sbx[2] = { 0, 0 };
+inline thread_local unsigned long g_n_same_sbx = 0;
 inline int g_next_slot_hint = 0;
 
 } // namespace vsbx
@@ -231,6 +233,9 @@ public:
   // rlbox inspects the arity of this member through decltype, so it cannot be overloaded.
   static inline bool impl_is_in_same_sandbox(const void* p1, const void* p2)
   {
+    // observable for the harness: the last pair that was range/arith-checked on this thread
+    vsbx::g_last_same_sbx[0] = reinterpret_cast<uintptr_t>(p1); vsbx::g_last_same_sbx[1] = reinterpret_cast<uintptr_t>(p2);
+    vsbx::g_n_same_sbx++;
     return (Mask & reinterpret_cast<uintptr_t>(p1)) == (Mask & reinterpret_cast<uintptr_t>(p2));
   }
 
